@@ -1,0 +1,27 @@
+//go:build verif
+
+package security
+
+// Contracts for the govc verification-condition generator (see /verif/DESIGN.md, section 4.16).
+// This file is comment-only: it contains no declarations and changes no compiled code.
+
+// cntSev(h, p, k, s): how many of the first k findings stored at p have severity s
+// (h is the memory of the Severity field; findings are @cells(Finding) cells apart).
+//@ specrec cntSev(h (Array Int Str), p Int, k Int, s Str) Int = (ite (<= k 0) 0 (+ (sf_cntSev h p (- k 1) s) (ite (= (select h (+ p (* @cells(Finding) (- k 1)))) s) 1 0)))
+
+// The counts always equal the findings listed.
+//@ func (*Scanner).updateCounts
+//@   requires result != nil
+//@   requires result.CriticalCount == 0 && result.HighCount == 0 && result.MediumCount == 0 && result.LowCount == 0
+//@   ensures  result.TotalCount == len(result.Findings)
+//@   ensures  result.CriticalCount == cntSev(memf(result.Findings, Severity), ptr(result.Findings), len(result.Findings), SeverityCritical)
+//@   ensures  result.HighCount == cntSev(memf(result.Findings, Severity), ptr(result.Findings), len(result.Findings), SeverityHigh)
+//@   ensures  result.MediumCount == cntSev(memf(result.Findings, Severity), ptr(result.Findings), len(result.Findings), SeverityMedium)
+//@   ensures  result.LowCount == cntSev(memf(result.Findings, Severity), ptr(result.Findings), len(result.Findings), SeverityLow)
+//@   ensures  result.Findings == old(result.Findings)
+//@   loop 1 invariant 0 <= rangeindex + 1 && rangeindex + 1 <= len(result.Findings) && result.Findings == old(result.Findings)
+//@   loop 1 invariant result.CriticalCount == cntSev(memf(result.Findings, Severity), ptr(result.Findings), rangeindex + 1, SeverityCritical)
+//@   loop 1 invariant result.HighCount == cntSev(memf(result.Findings, Severity), ptr(result.Findings), rangeindex + 1, SeverityHigh)
+//@   loop 1 invariant result.MediumCount == cntSev(memf(result.Findings, Severity), ptr(result.Findings), rangeindex + 1, SeverityMedium)
+//@   loop 1 invariant result.LowCount == cntSev(memf(result.Findings, Severity), ptr(result.Findings), rangeindex + 1, SeverityLow)
+//@   loop 1 invariant result.TotalCount == len(result.Findings)
